@@ -406,6 +406,25 @@ func checkBreakGuards(c *Ctx, rule string) {
 		}
 	}
 	c.Check(okCreate, rule, "creation-on-break-paused", where, "initial status pausing iff level is a break", "a table created on a break level does not start paused")
+	// … and stays paused: any later status store of the creating function leaves a pausing table alone
+	for _, ss := range p.FieldStores("TableState", "Status") {
+		if !storeIsLocal(ss.Instr) {
+			continue
+		}
+		for _, s2 := range p.FieldStores("TableState", "Status") {
+			if s2.Fn != ss.Fn || s2.Instr == ss.Instr {
+				continue
+			}
+			if v, _ := s2.Val.ConstString(); v == "table_pausing" {
+				continue
+			}
+			keeps := cmpHolds(p.Guards(s2.Instr), func(l, r *Sym, op token.Token) bool {
+				v, _ := r.ConstString()
+				return op == token.NEQ && l.Strip().IsField("TableState", "Status") && v == "table_pausing"
+			})
+			c.Check(keeps, rule, "creation-on-break-stays-paused", p.InstrPos(s2.Instr), "later status store guarded by status != pausing", "the creating function overwrites the initial status with "+s2.Val.String()+" without excluding a table that was created paused for a break")
+		}
+	}
 }
 
 func describeSite(p *Prog, in ssa.Instruction) string {
